@@ -95,6 +95,31 @@ def lake_build(targets):
         return p.returncode == 0, p.stdout + p.stderr
 
 
+def regenerate_fns():
+    """tools/gofn: translate the reviewed list of Go functions (expect/gofn_spec.json) from /repo's working tree into
+    lean/Nic/Gen/Fns.lean. Returns (failed: {"file:func": reason}, done: [..]); a build / run failure of the translator itself
+    is reported under the key "translator"."""
+    import json
+    tooldir = os.path.join(VERIF, "tools", "gofn")
+    binp = os.path.join(VERIF, ".build", "gofn")
+    gen = os.path.join(LEAN, "Nic", "Gen", "Fns.lean")
+    with Lock("gofn"):
+        os.makedirs(os.path.dirname(binp), exist_ok=True)
+        os.makedirs(os.path.dirname(gen), exist_ok=True)
+        p = subprocess.run(["go", "build", "-o", binp, "."], cwd=tooldir, env=goenv(), capture_output=True, text=True)
+        if p.returncode != 0:
+            return {"translator": "build failed: " + p.stderr[-1500:]}, []
+        p = subprocess.run([binp, REPO, os.path.join(VERIF, "expect", "gofn_spec.json")], capture_output=True, text=True)
+        if p.returncode != 0:
+            return {"translator": "run failed: " + p.stderr[-1500:]}, []
+        out = json.loads(p.stdout)
+        old = open(gen).read() if os.path.exists(gen) else None
+        if old != out["lean"]:
+            with open(gen, "w") as f:
+                f.write(out["lean"])
+        return out.get("failed") or {}, out.get("done") or []
+
+
 def strip_comments(src):
     src = re.sub(r"/-.*?-/", "", src, flags=re.S)
     src = re.sub(r"--.*", "", src)
